@@ -267,10 +267,40 @@ fn domain(bytes: &[u8]) -> (bool, bool) {
 /// (the legacy text format expresses segment starts by repeating a point, so such lists are ambiguous)
 fn typed_point_repeats_predecessor(h: &HitObject) -> bool {
     let HitObjectKind::Slider(s) = &h.kind else { return false };
-    let cps = s.path.control_points();
-    // (the first control point always starts a segment: a decoded list can only begin with two equal positions
-    // for a Catmull path, where the split at index 1 drops one copy at every reading)
-    cps.windows(2).any(|w| w[0].pos == w[1].pos && (w[1].path_type.is_some() || w[0].path_type.is_some()))
+    !f17_free(s.path.control_points())
+}
+
+/// The exact shape of finding F17, transcribed from the Lean predicate `C04.F17Free` (Props/C04DecodedPaths.lean, where it is
+/// proved that for every DECODED slider the shape half of representability holds exactly when this predicate does): going
+/// through the control points after the (typed) first one with the type `T` of the current segment and the predecessor `a`,
+///  * an UNTYPED point that repeats a TYPED predecessor must be the last point or stand directly before a typed point,
+///  * a TYPED point of the current segment's type (not a perfect curve) that does not end its segment - the kind the encoder may
+///    write implicitly, by repeating the point - must not repeat its predecessor and must not be Catmull (consecutive explicit
+///    Catmull segments are outside the preserved view).
+/// Lists outside this predicate are ambiguous in the legacy path string; lists inside it must read back exactly.
+pub fn f17_free(cps: &[rosu_map::section::hit_objects::PathControlPoint]) -> bool {
+    use rosu_map::section::hit_objects::{PathType, SplineType};
+    let Some(first) = cps.first() else { return true };
+    let Some(mut cur) = first.path_type else { return true };
+    for i in 1..cps.len() {
+        let (a, b, rest) = (&cps[i - 1], &cps[i], &cps[i + 1..]);
+        let next_typed = rest.first().map_or(false, |c| c.path_type.is_some());
+        let ends_seg = rest.first().map_or(true, |c| c.path_type.is_some());
+        match b.path_type {
+            None => {
+                if b.pos == a.pos && a.path_type.is_some() && !(rest.is_empty() || next_typed) {
+                    return false;
+                }
+            }
+            Some(t) => {
+                if t == cur && t != PathType::PERFECT_CURVE && !ends_seg && (t.kind == SplineType::Catmull || b.pos == a.pos) {
+                    return false;
+                }
+                cur = t;
+            }
+        }
+    }
+    true
 }
 
 /// F20: the slider has no requested length and its computed distance is above the limit (131072) that the
@@ -475,6 +505,14 @@ pub fn prop_lines(bytes: &[u8]) -> String {
             };
             if types(sa) != types(sb) {
                 return format!("FAIL slider {i}: segment types {:?} are read back as {:?}", types(sa), types(sb));
+            }
+            // outside the ambiguous shape of F17 the control points read back exactly: positions and types, in order
+            // (seed C04-k: an implicit segment start written where the reader splits elsewhere)
+            let list = |s: &rosu_map::section::hit_objects::HitObjectSlider| {
+                s.path.control_points().iter().map(|c| format!("{:x}:{:x}:{:?}", c.pos.x.to_bits(), c.pos.y.to_bits(), c.path_type)).collect::<Vec<_>>()
+            };
+            if list(sa) != list(sb) {
+                return format!("FAIL slider {i}: {} control points {:?} are read back as {} {:?}", list(sa).len(), list(sa), list(sb).len(), list(sb));
             }
         }
     }
